@@ -823,6 +823,23 @@ pub fn check_main(args: &[String]) -> i32 {
         None
     };
 
+    // C15, thorough tier: memory proportional to the input (fresh processes, peak resident set)
+    let mem_table = if prop == "C15" && tier == "thorough" {
+        let (table, mv) = crate::c15::memory_scaling(true);
+        for (class, msg) in mv {
+            let k = crate::c15::SCALING_FAMILIES.iter().position(|f| class.contains(f)).unwrap_or(0) as u64;
+            let mut scratch = Stats::default();
+            if let Some(mut c) = crate::dispatch::make_case(&prop, seed, k, &mut scratch) {
+                c.expect = Some(Expect { class: class.clone(), message: msg.clone(), ..Default::default() });
+                Stats::bump(&mut stats.violations, &class, 1);
+                viols.push(VMsg { run: k, class, message: msg, minimised: false, case: c });
+            }
+        }
+        Some(table)
+    } else {
+        None
+    };
+
     // C19 layer (d): what the Miri job found (thorough tier; run by ./check before this process)
     let miri: Option<serde_json::Value> = std::env::var("SIMCTL_MIRI_RESULT")
         .ok()
@@ -874,7 +891,7 @@ pub fn check_main(args: &[String]) -> i32 {
         let mut mcase = m.case.clone();
         let mut confirm = String::new();
         if let Some(bin) = crate::fidelity::real_bin() {
-            if mcase.kind != "multi" && mcase.kind != "env" && mcase.kind != "parser" && !m.class.contains("{direct:") && !m.class.contains("not_reproducible")
+            if mcase.kind != "multi" && mcase.kind != "env" && mcase.kind != "parser" && !m.class.contains("{direct:") && !m.class.contains("not_reproducible") && !m.class.contains("superlinear")
                 && crate::fidelity::pipe_expressible(&mcase.scn) && !m.class.contains("worker_died") {
                 let hist = crate::world::run_cli(&mcase.scn);
                 if let Some(r) = crate::fidelity::real_run(&mcase.scn, &bin, &scratch_dir, "confirm", Duration::from_secs(20)) {
@@ -934,7 +951,7 @@ pub fn check_main(args: &[String]) -> i32 {
     }
 
     let wall = t0.elapsed().as_secs_f64();
-    let evidence = build_evidence(&prop, &tier, seed, total, nw, &stats, &samples, &known_hit, &reported, rechecks.len(), mismatches, wall, &harness_errors, fid.as_ref(), miri.as_ref());
+    let evidence = build_evidence(&prop, &tier, seed, total, nw, &stats, &samples, &known_hit, &reported, rechecks.len(), mismatches, wall, &harness_errors, fid.as_ref(), miri.as_ref(), mem_table.as_ref());
     let _ = std::fs::create_dir_all(format!("{}/evidence", verif_home()));
     let ev_path = format!("{}/evidence/{}.json", verif_home(), prop);
     if let Err(e) = std::fs::write(&ev_path, serde_json::to_string_pretty(&evidence).unwrap()) {
@@ -975,6 +992,7 @@ fn build_evidence(
     harness_errors: &[String],
     fid: Option<&crate::fidelity::Sweep>,
     miri: Option<&serde_json::Value>,
+    mem_table: Option<&serde_json::Value>,
 ) -> serde_json::Value {
     let level = if prop == "C15" { "fault_enumeration" } else { "exploration" };
     let rare_zero: Vec<String> = crate::dispatch::expected_rare(prop)
@@ -1020,6 +1038,10 @@ fn build_evidence(
             "violation_classes": stats.violations,
             "harness_errors": harness_errors,
             "real_vs_stub": crate::dispatch::real_vs_stub(),
+            "peak_memory_by_size_family": match mem_table {
+                Some(t) => t.clone(),
+                None => serde_json::json!({ "status": "measured in the thorough tier of C15 only" }),
+            },
             "miri_threads": match miri {
                 Some(m) => m.clone(),
                 None => serde_json::json!({ "status": "not run", "note": "layer (d) runs in the thorough tier of C19 only" }),
